@@ -409,13 +409,63 @@ def PNode.sc2 (flow : Bool) : PNode → Bool
   | .str _ (.double _ _) => true
   | _ => false
 
+/-- What may carry an anchor: not an anchored node or an alias, not a compact block collection, in
+flow context not the empty null. -/
+def PNode.anchorable (flow : Bool) : PNode → Bool
+  | .anchored _ _ => false
+  | .alias _ _ => false
+  | .seq false _ c _ => !c
+  | .map false _ c _ => !c
+  | .null v => !flow || v % 5 != 4
+  | _ => true
+
+theorem anchorChar_facts (c : Char) (h : isAnchorChar c = true) :
+    okc c = true ∧ c ≠ ' ' ∧ c ≠ ',' ∧ c ≠ ']' ∧ c ≠ '}' ∧ c ≠ '[' ∧ c ≠ '{' ∧ c ≠ '#' ∧ c ≠ ':' := by
+  refine ⟨?_, ?_, ?_, ?_, ?_, ?_, ?_, ?_, ?_⟩
+  · simp only [okc, Bool.and_eq_true, bne_iff_ne]
+    constructor <;> (intro e; subst e; revert h; decide)
+  all_goals (intro e; subst e; revert h; decide)
+
+theorem anchorChar_not_flowInd (d : Char) (h : isAnchorChar d = true) : isFlowInd d = false := by
+  cases hf : isFlowInd d with
+  | false => rfl
+  | true =>
+    exfalso
+    have : d = ',' ∨ d = '[' ∨ d = ']' ∨ d = '{' ∨ d = '}' := by
+      simp [isFlowInd] at hf; omega
+    rcases this with h' | h' | h' | h' | h' <;> subst h' <;> revert h <;> decide
+
+theorem anchorName_okc (a : Str) (h : a.all isAnchorChar = true) : a.all okc = true := by
+  rw [List.all_eq_true] at h ⊢
+  intro c hc
+  exact (anchorChar_facts c (h c hc)).1
+
+theorem anchorName_split (a r : Str) (ha : a.all isAnchorChar = true) (hr : r = [] ∨ ∃ d t, r = d :: t ∧ isAnchorChar d = false) :
+    (a ++ r).takeWhile isAnchorChar = a ∧ (a ++ r).dropWhile isAnchorChar = r := by
+  induction a with
+  | nil =>
+    rcases hr with rfl | ⟨d, t, rfl, hd⟩
+    · simp
+    · simp [List.takeWhile_cons, List.dropWhile_cons, hd]
+  | cons c a ih =>
+    simp only [List.all_cons, Bool.and_eq_true] at ha
+    obtain ⟨i1, i2⟩ := ih ha.2
+    simp only [List.cons_append, List.takeWhile_cons, List.dropWhile_cons, ha.1, if_true, i1, i2, and_self]
+
+theorem anchorName_facts (a : Str) (h : anchorNameOk a = true) : a ≠ [] ∧ a.all isAnchorChar = true ∧ a.isEmpty = false := by
+  simp only [anchorNameOk, Bool.and_eq_true, Bool.not_eq_true'] at h
+  refine ⟨?_, h.1.2, h.1.1⟩
+  intro e; subst e; simp at h
+
 mutual
-/-- Flow nodes of layer 2. -/
+/-- Flow nodes of layers 2 and 6. -/
 def PNode.fl2 : PNode → Bool
   | .seq true _ _ items => items.fl2
   | .map true _ _ es => es.fl2
   | .seq false _ _ _ => false
   | .map false _ _ _ => false
+  | .anchored a n => anchorNameOk a && n.anchorable true && n.fl2
+  | .alias a _ => anchorNameOk a
   | x => x.sc2 true
 def PItems.fl2 : PItems → Bool
   | .nil => true
@@ -598,8 +648,8 @@ theorem goodHead_flow2 (n : PNode) (h : n.fl2 = true) : goodHead n.flow := by
       cases st <;> simp [PNode.flow, strFlowText, dqText, sqText, PNode.sc2] at h0 hs
       subst h0; simp [plainSafe, plainFirstOk] at hs
     · exact h0
-  | anchored a n => simp [PNode.fl2, PNode.sc2] at h
-  | alias a t => simp [PNode.fl2, PNode.sc2] at h
+  | anchored a n => exact ⟨'&', _, rfl, by decide, by decide, by decide, by decide⟩
+  | alias a t => exact ⟨'*', _, rfl, by decide, by decide, by decide, by decide⟩
 
 /-- A flow collection: what follows its closing bracket is arbitrary. -/
 def PNode.isFlowColl : PNode → Bool
@@ -689,8 +739,46 @@ theorem flowNode2 : (n : PNode) → n.fl2 = true → ∀ (f : Nat) (rest : Str) 
       simp only [spaces, List.replicate_zero, PEntries.flow, if_true, List.nil_append, List.append_assoc, List.cons_append] at st ⊢
       rw [st, flowEntriesTail2 r hr (f'' + 1) rest [(keyNode key ks, x.node)] (by omega)]
       simp [PEntries.nodes]
-  | .anchored a n, h, _, _, _, _, _ => by simp [PNode.fl2, PNode.sc2] at h
-  | .alias a t, h, _, _, _, _, _ => by simp [PNode.fl2, PNode.sc2] at h
+  | .anchored a n, h, f, rest, k, hf, hd => by
+    simp only [PNode.fl2, Bool.and_eq_true] at h
+    obtain ⟨⟨ha, _⟩, hn⟩ := h
+    obtain ⟨hne, hall, hemp⟩ := anchorName_facts a ha
+    have hd : Delim rest := by
+      rcases hd with hd | hd
+      · exact hd
+      · simp [PNode.isFlowColl] at hd
+    obtain ⟨f', rfl⟩ : ∃ f', f = f' + 1 := ⟨f - 1, by simp [PNode.need] at hf; omega⟩
+    have hf' : n.need ≤ f' := by simp [PNode.need] at hf; omega
+    obtain ⟨s1, s2⟩ := anchorName_split a (' ' :: (n.flow ++ rest)) hall (Or.inr ⟨' ', _, rfl, by decide⟩)
+    have ih := flowNode2 n hn f' rest 0 hf' (Or.inl hd)
+    simp only [spaces, List.replicate_zero, List.nil_append] at ih
+    rw [parseFlow]
+    have e : spaces k ++ (PNode.anchored a n).flow ++ rest = spaces k ++ '&' :: (a ++ ' ' :: (n.flow ++ rest)) := by
+      simp [PNode.flow, List.append_assoc]
+    rw [e, dropSpaces_spaces k '&' _ (by decide)]
+    simp only [s1, s2, hemp, Bool.false_eq_true, if_false, ih, PNode.node]
+    rfl
+  | .alias a t, h, f, rest, k, hf, hd => by
+    simp only [PNode.fl2] at h
+    obtain ⟨hne, hall, hemp⟩ := anchorName_facts a h
+    have hd : Delim rest := by
+      rcases hd with hd | hd
+      · exact hd
+      · simp [PNode.isFlowColl] at hd
+    obtain ⟨f', rfl⟩ : ∃ f', f = f' + 1 := ⟨f - 1, by simp [PNode.need] at hf; omega⟩
+    have hr : rest = [] ∨ ∃ d t, rest = d :: t ∧ isAnchorChar d = false := by
+      rcases hd with rfl | ⟨d, r, rfl, hdf⟩
+      · exact Or.inl rfl
+      · refine Or.inr ⟨d, r, rfl, ?_⟩
+        cases hc : isAnchorChar d with
+        | false => rfl
+        | true => rw [anchorChar_not_flowInd d hc] at hdf; cases hdf
+    obtain ⟨s1, s2⟩ := anchorName_split a rest hall hr
+    rw [parseFlow]
+    have e : spaces k ++ (PNode.alias a t).flow ++ rest = spaces k ++ '*' :: (a ++ rest) := by
+      simp [PNode.flow, List.append_assoc]
+    rw [e, dropSpaces_spaces k '*' _ (by decide)]
+    simp only [s1, s2, hemp, Bool.false_eq_true, if_false, PNode.node]
 theorem flowItemsTail2 : (items : PItems) → items.fl2 = true → ∀ (f : Nat) (rest : Str) (acc : List Node), items.need ≤ f →
     parseFlowSeqTail f (items.flow false ++ ']' :: rest) acc = .ok (.seq (acc.reverse ++ items.nodes), rest)
   | .nil, _, f, rest, acc, hf => by
@@ -744,10 +832,13 @@ end
 /-! ### flow text of layer-2 nodes: no line breaks, fuel bound, resolution -/
 
 theorem scalar_of_fl2 (x : PNode) (h : x.fl2 = true)
-    (hx : ∀ fl st c items, x ≠ .seq fl st c items) (hm : ∀ fl st c es, x ≠ .map fl st c es) : x.sc2 true = true := by
+    (hx : ∀ fl st c items, x ≠ .seq fl st c items) (hm : ∀ fl st c es, x ≠ .map fl st c es)
+    (ha : ∀ a n, x ≠ .anchored a n := by intros; simp) (hl : ∀ a t, x ≠ .alias a t := by intros; simp) : x.sc2 true = true := by
   cases x with
   | seq fl st c items => exact absurd rfl (hx fl st c items)
   | map fl st c es => exact absurd rfl (hm fl st c es)
+  | anchored a n => exact absurd rfl (ha a n)
+  | alias a t => exact absurd rfl (hl a t)
   | _ => simpa [PNode.fl2] using h
 
 mutual
@@ -768,8 +859,16 @@ theorem okc_flow2 : (n : PNode) → n.fl2 = true → n.flow.all okc = true
     have hi : es.fl2 = true := by simpa [PNode.fl2] using h
     simp only [PNode.flow, List.all_cons, List.all_append, okc_flowEntries2 es hi true, List.all_nil, Bool.and_true]
     decide
-  | .anchored a n, h => by simp [PNode.fl2, PNode.sc2] at h
-  | .alias a t, h => by simp [PNode.fl2, PNode.sc2] at h
+  | .anchored a n, h => by
+    simp only [PNode.fl2, Bool.and_eq_true] at h
+    have ha := anchorName_okc a (anchorName_facts a h.1.1).2.1
+    simp only [PNode.flow, List.all_cons, List.all_append, ha, okc_flow2 n h.2, Bool.and_true]
+    decide
+  | .alias a t, h => by
+    simp only [PNode.fl2] at h
+    have ha := anchorName_okc a (anchorName_facts a h).2.1
+    simp only [PNode.flow, List.all_cons, ha, Bool.and_true]
+    decide
 theorem okc_flowItems2 : (items : PItems) → items.fl2 = true → ∀ first, (items.flow first).all okc = true
   | .nil, _, _ => by simp [PItems.flow]
   | .cons m x r, hi, first => by
@@ -814,8 +913,14 @@ theorem need_bound2 : (n : PNode) → n.fl2 = true → n.need + 2 ≤ 4 * n.flow
     have hi : es.fl2 = true := by simpa [PNode.fl2] using h
     have := need_boundEntries2 es hi true
     simp [PNode.need, PNode.flow] at *; omega
-  | .anchored a n, h => by simp [PNode.fl2, PNode.sc2] at h
-  | .alias a t, h => by simp [PNode.fl2, PNode.sc2] at h
+  | .anchored a n, h => by
+    simp only [PNode.fl2, Bool.and_eq_true] at h
+    have := need_bound2 n h.2
+    simp only [PNode.need, PNode.flow, List.length_cons, List.length_append]
+    omega
+  | .alias a t, h => by
+    simp only [PNode.need, PNode.flow, List.length_cons]
+    omega
 theorem need_boundItems2 : (items : PItems) → items.fl2 = true → ∀ first, items.need ≤ 4 * (items.flow first).length + 4
   | .nil, _, _ => by simp [PItems.need]
   | .cons m x r, hi, first => by
@@ -838,37 +943,156 @@ theorem need_boundEntries2 : (es : PEntries) → es.fl2 = true → ∀ first, es
     omega
 end
 
+
+/-! ## Tree equality test is sound -/
+
 mutual
-theorem resolveNode2 : (n : PNode) → n.fl2 = true → ∀ env, n.node.resolve env = .ok (n.tree, env)
-  | .null v, h, env => (scalarFacts true _ (scalar_of_fl2 _ h (by intros; simp) (by intros; simp)) (by intros; simp) (by intros; simp)).res env
-  | .bool b v, h, env => (scalarFacts true _ (scalar_of_fl2 _ h (by intros; simp) (by intros; simp)) (by intros; simp) (by intros; simp)).res env
-  | .int i v, h, env => (scalarFacts true _ (scalar_of_fl2 _ h (by intros; simp) (by intros; simp)) (by intros; simp) (by intros; simp)).res env
-  | .str s st, h, env => (scalarFacts true _ (scalar_of_fl2 _ h (by intros; simp) (by intros; simp)) (by intros; simp) (by intros; simp)).res env
-  | .seq fl st c items, h, env => by
+theorem Tree.beq_eq : (a b : Tree) → a.beq b = true → a = b
+  | .null, .null, _ => rfl
+  | .bool x, .bool y, h => by simp only [Tree.beq, beq_iff_eq] at h; rw [h]
+  | .int x, .int y, h => by simp only [Tree.beq, beq_iff_eq] at h; rw [h]
+  | .str x, .str y, h => by simp only [Tree.beq, beq_iff_eq] at h; rw [h]
+  | .seq x, .seq y, h => by simp only [Tree.beq] at h; rw [beqList_eq x y h]
+  | .map x, .map y, h => by simp only [Tree.beq] at h; rw [beqKVs_eq x y h]
+  | .null, .bool _, h => by simp [Tree.beq] at h
+  | .null, .int _, h => by simp [Tree.beq] at h
+  | .null, .str _, h => by simp [Tree.beq] at h
+  | .null, .seq _, h => by simp [Tree.beq] at h
+  | .null, .map _, h => by simp [Tree.beq] at h
+  | .bool _, .null, h => by simp [Tree.beq] at h
+  | .bool _, .int _, h => by simp [Tree.beq] at h
+  | .bool _, .str _, h => by simp [Tree.beq] at h
+  | .bool _, .seq _, h => by simp [Tree.beq] at h
+  | .bool _, .map _, h => by simp [Tree.beq] at h
+  | .int _, .null, h => by simp [Tree.beq] at h
+  | .int _, .bool _, h => by simp [Tree.beq] at h
+  | .int _, .str _, h => by simp [Tree.beq] at h
+  | .int _, .seq _, h => by simp [Tree.beq] at h
+  | .int _, .map _, h => by simp [Tree.beq] at h
+  | .str _, .null, h => by simp [Tree.beq] at h
+  | .str _, .bool _, h => by simp [Tree.beq] at h
+  | .str _, .int _, h => by simp [Tree.beq] at h
+  | .str _, .seq _, h => by simp [Tree.beq] at h
+  | .str _, .map _, h => by simp [Tree.beq] at h
+  | .seq _, .null, h => by simp [Tree.beq] at h
+  | .seq _, .bool _, h => by simp [Tree.beq] at h
+  | .seq _, .int _, h => by simp [Tree.beq] at h
+  | .seq _, .str _, h => by simp [Tree.beq] at h
+  | .seq _, .map _, h => by simp [Tree.beq] at h
+  | .map _, .null, h => by simp [Tree.beq] at h
+  | .map _, .bool _, h => by simp [Tree.beq] at h
+  | .map _, .int _, h => by simp [Tree.beq] at h
+  | .map _, .str _, h => by simp [Tree.beq] at h
+  | .map _, .seq _, h => by simp [Tree.beq] at h
+theorem beqList_eq : (a b : List Tree) → beqList a b = true → a = b
+  | [], [], _ => rfl
+  | x :: xs, y :: ys, h => by
+    simp only [beqList, Bool.and_eq_true] at h
+    rw [Tree.beq_eq x y h.1, beqList_eq xs ys h.2]
+  | [], _ :: _, h => by simp [beqList] at h
+  | _ :: _, [], h => by simp [beqList] at h
+theorem beqKVs_eq : (a b : List (Str × Tree)) → beqKVs a b = true → a = b
+  | [], [], _ => rfl
+  | (k, x) :: xs, (l, y) :: ys, h => by
+    simp only [beqKVs, Bool.and_eq_true, beq_iff_eq] at h
+    rw [h.1.1, Tree.beq_eq x y h.1.2, beqKVs_eq xs ys h.2]
+  | [], _ :: _, h => by simp [beqKVs] at h
+  | _ :: _, [], h => by simp [beqKVs] at h
+end
+
+
+theorem scope_anchored (a : Str) (n : PNode) (env env' : Env) (h : (PNode.anchored a n).scope env = some env') :
+    ∃ e, n.scope env = some e ∧ env' = e.take (e.length - env.length) ++ (a, n.tree) :: env := by
+  simp only [PNode.scope] at h
+  split at h
+  · cases h
+  · cases hs : n.scope env with
+    | none => rw [hs] at h; cases h
+    | some e => rw [hs] at h; exact ⟨e, rfl, by simpa using h.symm⟩
+
+theorem scope_alias (a : Str) (t : Tree) (env env' : Env) (h : (PNode.alias a t).scope env = some env') :
+    env' = env ∧ env.lookup a = some t := by
+  simp only [PNode.scope] at h
+  cases hl : env.lookup a with
+  | none => rw [hl] at h; cases h
+  | some t' =>
+    rw [hl] at h
+    by_cases hb : t'.beq t = true
+    · simp only [hb, if_true, Option.some.injEq] at h
+      exact ⟨h.symm, by rw [Tree.beq_eq t' t hb]⟩
+    · simp [hb] at h
+
+mutual
+/-- Resolution of flow nodes follows the specification's anchor scoping. -/
+theorem resolveNode2 : (n : PNode) → n.fl2 = true → ∀ env env', n.scope env = some env' →
+    n.node.resolve env = .ok (n.tree, env')
+  | .null v, h, env, env', hs => by
+    have : env' = env := by simpa [PNode.scope] using hs.symm
+    subst this
+    exact (scalarFacts true _ (scalar_of_fl2 _ h (by intros; simp) (by intros; simp)) (by intros; simp) (by intros; simp)).res env'
+  | .bool b v, h, env, env', hs => by
+    have : env' = env := by simpa [PNode.scope] using hs.symm
+    subst this
+    exact (scalarFacts true _ (scalar_of_fl2 _ h (by intros; simp) (by intros; simp)) (by intros; simp) (by intros; simp)).res env'
+  | .int i v, h, env, env', hs => by
+    have : env' = env := by simpa [PNode.scope] using hs.symm
+    subst this
+    exact (scalarFacts true _ (scalar_of_fl2 _ h (by intros; simp) (by intros; simp)) (by intros; simp) (by intros; simp)).res env'
+  | .str s st, h, env, env', hs => by
+    have : env' = env := by simpa [PNode.scope] using hs.symm
+    subst this
+    exact (scalarFacts true _ (scalar_of_fl2 _ h (by intros; simp) (by intros; simp)) (by intros; simp) (by intros; simp)).res env'
+  | .seq fl st c items, h, env, env', hs => by
     have hfl : fl = true := by cases fl <;> simp [PNode.fl2] at h ⊢
     subst hfl
     have hi : items.fl2 = true := by simpa [PNode.fl2] using h
-    simp [PNode.node, Node.resolve, resolveItems2 items hi env, PNode.tree]; rfl
-  | .map fl st c es, h, env => by
+    simp only [PNode.scope] at hs
+    simp [PNode.node, Node.resolve, resolveItems2 items hi env env' hs, PNode.tree]; rfl
+  | .map fl st c es, h, env, env', hs => by
     have hfl : fl = true := by cases fl <;> simp [PNode.fl2] at h ⊢
     subst hfl
     have hi : es.fl2 = true := by simpa [PNode.fl2] using h
-    simp [PNode.node, Node.resolve, resolveEntries2 es hi env, PNode.tree]; rfl
-  | .anchored a n, h, _ => by simp [PNode.fl2, PNode.sc2] at h
-  | .alias a t, h, _ => by simp [PNode.fl2, PNode.sc2] at h
-theorem resolveItems2 : (items : PItems) → items.fl2 = true → ∀ env, resolveList env items.nodes = .ok (items.trees, env)
-  | .nil, _, env => by simp [PItems.nodes, resolveList, PItems.trees]
-  | .cons m x r, hi, env => by
+    simp only [PNode.scope] at hs
+    simp [PNode.node, Node.resolve, resolveEntries2 es hi env env' hs, PNode.tree]; rfl
+  | .anchored a n, h, env, env', hs => by
+    simp only [PNode.fl2, Bool.and_eq_true] at h
+    obtain ⟨e, he, rfl⟩ := scope_anchored a n env env' hs
+    simp only [PNode.node, Node.resolve, resolveNode2 n h.2 env e he, PNode.tree]
+  | .alias a t, h, env, env', hs => by
+    obtain ⟨rfl, hl⟩ := scope_alias a t env env' hs
+    simp only [PNode.node, Node.resolve, hl, PNode.tree]
+theorem resolveItems2 : (items : PItems) → items.fl2 = true → ∀ env env', items.scope env = some env' →
+    resolveList env items.nodes = .ok (items.trees, env')
+  | .nil, _, env, env', hs => by
+    have : env' = env := by simpa [PItems.scope] using hs.symm
+    subst this; simp [PItems.nodes, resolveList, PItems.trees]
+  | .cons m x r, hi, env, env', hs => by
     have hx : x.fl2 = true := by simp [PItems.fl2] at hi; exact hi.1
     have hr : r.fl2 = true := by simp [PItems.fl2] at hi; exact hi.2
-    simp [PItems.nodes, resolveList, resolveNode2 x hx env, resolveItems2 r hr env, PItems.trees]; rfl
-theorem resolveEntries2 : (es : PEntries) → es.fl2 = true → ∀ env, resolveKVs env es.nodes = .ok (es.trees, env)
-  | .nil, _, env => by simp [PEntries.nodes, resolveKVs, PEntries.trees]
-  | .cons m k ks x r, hi, env => by
+    simp only [PItems.scope] at hs
+    cases hxs : x.scope env with
+    | none => rw [hxs] at hs; cases hs
+    | some e =>
+      rw [hxs] at hs
+      simp only [Option.bind_some] at hs
+      simp [PItems.nodes, resolveList, resolveNode2 x hx env e hxs, resolveItems2 r hr e env' hs, PItems.trees]; rfl
+theorem resolveEntries2 : (es : PEntries) → es.fl2 = true → ∀ env env', es.scope env = some env' →
+    resolveKVs env es.nodes = .ok (es.trees, env')
+  | .nil, _, env, env', hs => by
+    have : env' = env := by simpa [PEntries.scope] using hs.symm
+    subst this; simp [PEntries.nodes, resolveKVs, PEntries.trees]
+  | .cons m k ks x r, hi, env, env', hs => by
     have hk : keyOk true k ks = true := by simp [PEntries.fl2] at hi; exact hi.1.1
     have hx : x.fl2 = true := by simp [PEntries.fl2] at hi; exact hi.1.2
     have hr : r.fl2 = true := by simp [PEntries.fl2] at hi; exact hi.2
-    simp [PEntries.nodes, resolveKVs, (keyFacts true k ks hk).2.2, resolveNode2 x hx env, resolveEntries2 r hr env, PEntries.trees]; rfl
+    simp only [PEntries.scope] at hs
+    cases hxs : x.scope env with
+    | none => rw [hxs] at hs; cases hs
+    | some e =>
+      rw [hxs] at hs
+      simp only [Option.bind_some] at hs
+      simp [PEntries.nodes, resolveKVs, (keyFacts true k ks hk).2.2, resolveNode2 x hx env e hxs, resolveEntries2 r hr e env' hs,
+        PEntries.trees]; rfl
 end
 
 
@@ -1258,6 +1482,21 @@ theorem tail_fill (n : Nat) (k : Bool) (fs : List Filler) (L : Line) (more : Lis
         simp only [fillLines, List.map_cons, fillerLine, List.cons_append, List.cons.injEq] at h
         rw [← h.1]; rfl
 
+theorem anchorable_noncompact (n : PNode) (fl : Bool) (h : n.anchorable fl = true) : n.isCompact = false := by
+  cases n with
+  | seq f st c items => cases f <;> simp_all [PNode.anchorable, PNode.isCompact]
+  | map f st c es => cases f <;> simp_all [PNode.anchorable, PNode.isCompact]
+  | _ => rfl
+
+theorem trailOk2_inner (m : Meta) (a : Str) (n : PNode) (h : trailOk2 m (.anchored a n) = true) (hn : n.anchorable false = true) :
+    trailOk2 { m with gap := 0 } n = true := by
+  have hc := anchorable_noncompact n false hn
+  cases ht : m.trail with
+  | none => simp [trailOk2, ht]
+  | some c =>
+    simp only [trailOk2, ht, PNode.isCompact, Bool.not_false, Bool.and_true] at h
+    simp only [trailOk2, ht, hc, Bool.not_false, Bool.and_true]; exact h
+
 mutual
 /-- A value of layers 2–4 in context `ctx` (`m` = its entry's meta): scalars, block scalars below the
 root, flow collections, block collections — nested with steps, compact after `- ` —, trailing comments
@@ -1272,6 +1511,8 @@ def PNode.bl2 (ctx : Ctx) : PNode → Bool
   | .map true st c es => (PNode.map true st c es).fl2
   | .str s (.literal ch ind ex) => strOk false (ctx == .root) s (.literal ch ind ex)
   | .str s (.folded ch ind ex fo) => strOk false (ctx == .root) s (.folded ch ind ex fo)
+  | .anchored a n => anchorNameOk a && n.anchorable false && n.bl2 ctx
+  | .alias a _ => anchorNameOk a
   | x => x.sc2 false
 def PItems.bl2 : PItems → Bool
   | .nil => true
@@ -1320,6 +1561,7 @@ def PNode.isInline2 : PNode → Bool
   | .map false _ _ _ => false
   | .str _ (.literal _ _ _) => false
   | .str _ (.folded _ _ _ _) => false
+  | .anchored _ _ => false
   | _ => true
 
 /-- `valueR` of an inline value. -/
@@ -1357,8 +1599,8 @@ theorem valueR_inline (x : PNode) (ctx : Ctx) (h : x.bl2 ctx = true) (hi : x.isI
     cases fl with
     | true => simp [PNode.valueR, PNode.flow]
     | false => simp [PNode.isInline2] at hi
-  | anchored a n => simp [PNode.bl2, PNode.sc2] at h
-  | alias a t => simp [PNode.bl2, PNode.sc2] at h
+  | anchored a n => simp [PNode.isInline2] at hi
+  | alias a t => simp [PNode.valueR, PNode.flow]
 
 
 /-- Shape of the rest of an indicator line: empty, or starting with a space. -/
@@ -1384,8 +1626,11 @@ theorem okc_inline2 (x : PNode) (ctx : Ctx) (h : x.bl2 ctx = true) (hi : x.isInl
     | single => exact (scalarFacts false (.str s .single) (by simpa [PNode.bl2] using h) (by intros; simp) (by intros; simp)).ok
     | double sh eu => exact (scalarFacts false (.str s (.double sh eu)) (by simp [PNode.sc2]) (by intros; simp) (by intros; simp)).ok
     | folded ch ind ex fo => simp [PNode.isInline2] at hi
-  | anchored a n => simp [PNode.bl2, PNode.sc2] at h
-  | alias a t => simp [PNode.bl2, PNode.sc2] at h
+  | anchored a n => simp [PNode.isInline2] at hi
+  | alias a t =>
+    simp only [PNode.bl2] at h
+    have := anchorName_okc a (anchorName_facts a h).2.1
+    simp only [PNode.flow, List.all_cons, this, Bool.and_true]; decide
 
 mutual
 theorem cwf_of_bl2 : (x : PNode) → ∀ ctx, x.bl2 ctx = true → x.cwf = true
@@ -1411,7 +1656,9 @@ theorem cwf_of_bl2 : (x : PNode) → ∀ ctx, x.bl2 ctx = true → x.cwf = true
   | .bool _ _, _, _ => rfl
   | .int _ _, _, _ => rfl
   | .str _ _, _, _ => rfl
-  | .anchored a n, ctx, h => by simp [PNode.bl2, PNode.sc2] at h
+  | .anchored a n, ctx, h => by
+    simp only [PNode.bl2, Bool.and_eq_true] at h
+    simp only [PNode.cwf]; exact cwf_of_bl2 n ctx h.2
   | .alias _ _, _, _ => rfl
 theorem cwf_of_bl2_items : (items : PItems) → items.bl2 = true → items.cwf = true
   | .nil, _ => rfl
@@ -1540,8 +1787,23 @@ theorem canon_value : (x : PNode) → ∀ ctx, x.bl2 ctx = true → ∀ (e col :
       split
       · exact ⟨by simp only [List.nil_append]; exact restShape_trail _ hT, by simpa using hTok, by simp⟩
       · exact ⟨Or.inr (by simp [spaces, List.replicate_succ]), by simp only [List.all_append, okc_spaces, hok, hTok, Bool.and_self], by simp⟩)
-  | .anchored a n, ctx, h, _, _, _, _ => by simp [PNode.bl2, PNode.sc2] at h
-  | .alias a t, ctx, h, _, _, _, _ => by simp [PNode.bl2, PNode.sc2] at h
+  | .anchored a n, ctx, h, e, col, m, ht => by
+    simp only [PNode.bl2, Bool.and_eq_true] at h
+    obtain ⟨⟨ha, hanc⟩, hn⟩ := h
+    obtain ⟨hs, hok, hl⟩ := canon_value n ctx hn e (col + m.gap + 1 + a.length + 1) { m with gap := 0 }
+      (trailOk2_inner m a n ht hanc)
+    simp only [PNode.valueR]
+    refine ⟨Or.inr (by simp [spaces, List.replicate_succ]), ?_, hl⟩
+    simp only [List.all_append, List.all_cons, okc_spaces, anchorName_okc a (anchorName_facts a ha).2.1, hok, Bool.and_true,
+      Bool.true_and]
+    decide
+  | .alias a t, ctx, h, e, col, m, ht => by
+    obtain ⟨hT, hTok, -⟩ := trail_facts m _ ht
+    rw [valueR_inline _ ctx h rfl e col m]
+    have hok := okc_inline2 _ ctx h rfl
+    split
+    · exact ⟨by simp only [List.nil_append]; exact restShape_trail _ hT, by simpa using hTok, by simp⟩
+    · exact ⟨Or.inr (by simp [spaces, List.replicate_succ]), by simp only [List.all_append, okc_spaces, hok, hTok, Bool.and_self], by simp⟩
 theorem canon_items : (items : PItems) → items.bl2 = true → ∀ n, ∀ l ∈ items.linesR n, l.canon
   | .nil, _, _ => by simp [PItems.linesR]
   | .cons m x r, h, n => by
@@ -2147,7 +2409,21 @@ theorem inline3_plain (s : Str) (hs : plainSafe false s = true) : Inline3 s (.sc
     · simp only [hp', restOk_trail T hT, if_true]
 
 
-/-- Inline values of layers 2–4 with non-empty text. -/
+theorem inline3_alias (a : Str) (h : anchorNameOk a = true) : Inline3 ('*' :: a) (.alias a) := by
+  obtain ⟨hne, hall, hemp⟩ := anchorName_facts a h
+  have hsplit : ∀ T, TrailOk T → (a ++ T).takeWhile isAnchorChar = a ∧ (a ++ T).dropWhile isAnchorChar = T := by
+    intro T hT
+    apply anchorName_split a T hall
+    rcases hT with rfl | ⟨c, rfl⟩
+    · exact Or.inl rfl
+    · exact Or.inr ⟨' ', _, rfl, by decide⟩
+  refine ⟨⟨'*', a, rfl, by decide, by decide, by decide, by decide, by decide, by decide⟩, fun T _ => by simp [isDash],
+    fun T _ => by simp [splitKey], ?_⟩
+  intro T hT
+  obtain ⟨s1, s2⟩ := hsplit T hT
+  simp only [List.cons_append, parseInline, s1, s2, hemp, Bool.false_eq_true, if_false, restOk_trail T hT, if_true]
+
+/-- Inline values of layers 2–4 and 6 with non-empty text. -/
 theorem inline3_value (x : PNode) (ctx : Ctx) (h : x.bl2 ctx = true) (hi : x.isInline2 = true) (hne : x.flow ≠ []) :
     Inline3 x.flow x.node := by
   cases x with
@@ -2182,8 +2458,8 @@ theorem inline3_value (x : PNode) (ctx : Ctx) (h : x.bl2 ctx = true) (hi : x.isI
       exact inline3_dq sh eu s
     | literal ch ind ex => simp [PNode.isInline2] at hi
     | folded ch ind ex fo => simp [PNode.isInline2] at hi
-  | anchored a n => simp [PNode.bl2, PNode.sc2] at h
-  | alias a t => simp [PNode.bl2, PNode.sc2] at h
+  | anchored a n => simp [PNode.isInline2] at hi
+  | alias a t => exact inline3_alias a (by simpa [PNode.bl2] using h)
 
 
 theorem inline2_value (x : PNode) (ctx : Ctx) (h : x.bl2 ctx = true) (hi : x.isInline2 = true) (hne : x.flow ≠ []) :
@@ -2209,6 +2485,7 @@ mutual
 def PNode.bneed : PNode → Nat
   | .seq false _ _ items => items.bneed + 2
   | .map false _ _ es => es.bneed + 2
+  | .anchored _ n => n.bneed + 1
   | _ => 2
 def PItems.bneed : PItems → Nat
   | .nil => 1
@@ -2308,9 +2585,9 @@ theorem parseAfter_trail (f col pn : Nat) (cOk sSame : Bool) (T : Str) (hT : Tra
       Bool.true_or, if_true, gt_iff_lt, Nat.lt_add_one, decide_true]
 
 /-- An empty value (`key:` / `-` with nothing but a comment after it and a following line that is not deeper). -/
-theorem parseAfter_empty (f col : Nat) (ctx : Ctx) (e : Nat) (rest : List Line) (hb : Bound ctx e rest)
+theorem parseAfter_empty (f col : Nat) (ctx : Ctx) (e : Nat) (rest : List Line) (hb : Bound ctx e rest) (cOk : Bool)
     (T : Str) (hT : TrailOk T) :
-    Parsed (parseAfter (f + 2) T col (pnOf ctx e) (ctx == .seq) (ctx == .map) rest) (.scalar true []) rest := by
+    Parsed (parseAfter (f + 2) T col (pnOf ctx e) cOk (ctx == .map) rest) (.scalar true []) rest := by
   rw [parseAfter_trail (f + 1) col _ _ _ T hT]
   rw [parseBlock]
   cases hs : skipFill rest with
@@ -2395,13 +2672,13 @@ theorem node_of_empty_flow (x : PNode) (ctx : Ctx) (h : x.bl2 ctx = true) (hi : 
     | folded ch ind ex fo => simp [PNode.isInline2] at hi
   | seq fl st c items => cases fl <;> simp [PNode.flow, PNode.isInline2] at he hi
   | map fl st c es => cases fl <;> simp [PNode.flow, PNode.isInline2] at he hi
-  | anchored a n => simp [PNode.bl2, PNode.sc2] at h
-  | alias a t => simp [PNode.bl2, PNode.sc2] at h
+  | anchored a n => simp [PNode.isInline2] at hi
+  | alias a t => simp [PNode.flow] at he
 
-/-- Inline values (scalars, flow collections) after an indicator. -/
+/-- Inline values (scalars, flow collections, aliases) after an indicator. -/
 theorem afterL_inline (x : PNode) (ctx : Ctx) (h : x.bl2 ctx = true) (hi : x.isInline2 = true) (e col : Nat) (m : Meta)
-    (ht : trailOk2 m x = true) (f : Nat) (rest : List Line) (hf : 2 ≤ f) (hb : Bound ctx e rest) :
-    Parsed (parseAfter f (x.valueR ctx e col m).1 col (pnOf ctx e) (ctx == .seq) (ctx == .map) ((x.valueR ctx e col m).2 ++ rest))
+    (ht : trailOk2 m x = true) (cOk : Bool) (f : Nat) (rest : List Line) (hf : 2 ≤ f) (hb : Bound ctx e rest) :
+    Parsed (parseAfter f (x.valueR ctx e col m).1 col (pnOf ctx e) cOk (ctx == .map) ((x.valueR ctx e col m).2 ++ rest))
       x.node rest := by
   obtain ⟨hT, -, -⟩ := trail_facts m x ht
   rw [valueR_inline x ctx h hi e col m]
@@ -2409,9 +2686,9 @@ theorem afterL_inline (x : PNode) (ctx : Ctx) (h : x.bl2 ctx = true) (hi : x.isI
   by_cases hne : x.flow = []
   · simp only [hne, if_true, List.nil_append]
     rw [node_of_empty_flow x ctx h hi hne]
-    exact parseAfter_empty f' col ctx e rest hb _ hT
+    exact parseAfter_empty f' col ctx e rest hb cOk _ hT
   · simp only [hne, if_false, List.nil_append]
-    have := parseAfter_inline3 (f' + 1) (m.gap + 1) col (pnOf ctx e) (ctx == .seq) (ctx == .map) x.flow x.node _ hT rest
+    have := parseAfter_inline3 (f' + 1) (m.gap + 1) col (pnOf ctx e) cOk (ctx == .map) x.flow x.node _ hT rest
       (inline3_value x ctx h hi hne)
     exact ⟨rest, this, rfl⟩
 
@@ -2485,20 +2762,132 @@ theorem tail_after_entries (m : Meta) (k : Str) (ks : KStyle) (x : PNode) (r : P
     have := hfl.2 hk'
     simp [startsBlank, hb] at this
 
+theorem takeWhile_spaces_len (k : Nat) (c : Char) (t : Str) (hc : c ≠ ' ') :
+    (List.takeWhile (fun x => x == ' ') (spaces k ++ c :: t)).length = k := by
+  induction k with
+  | zero => simp [spaces, List.takeWhile_cons, hc]
+  | succ k ih =>
+    simp only [spaces, List.replicate_succ, List.cons_append, List.takeWhile_cons, beq_self_eq_true, if_true,
+      List.length_cons] at ih ⊢
+    rw [ih]
+
+/-- An anchor after an indicator: the anchored node follows on the same line or on the next ones. -/
+theorem parseAfter_anchor (f k col pn : Nat) (cOk sSame : Bool) (a r : Str) (ls : List Line) (ha : anchorNameOk a = true)
+    (hr : RestShape r) (hkey : splitKey (dropSpaces r) = .ok none) (hdash : isDash (dropSpaces r) = false) :
+    parseAfter (f + 1) (spaces k ++ '&' :: (a ++ r)) col pn cOk sSame ls
+      = (parseAfter f r (col + k + 1 + a.length) pn false sSame ls).map fun (n, l) => (.anchored a n, l) := by
+  obtain ⟨hne, hall, hemp⟩ := anchorName_facts a ha
+  have hds : dropSpaces (spaces k ++ '&' :: (a ++ r)) = '&' :: (a ++ r) := dropSpaces_spaces k '&' _ (by decide)
+  have htw := takeWhile_spaces_len k '&' (a ++ r) (by decide)
+  have hsplit : (a ++ r).takeWhile isAnchorChar = a ∧ (a ++ r).dropWhile isAnchorChar = r := by
+    apply anchorName_split a r hall
+    rcases hr with rfl | hr
+    · exact Or.inl rfl
+    · cases r with
+      | nil => exact Or.inl rfl
+      | cons d t =>
+        have : d = ' ' := by simpa using hr
+        subst this; exact Or.inr ⟨' ', t, rfl, by decide⟩
+  have hrs : (!(r.isEmpty || r.head? == some ' ')) = false := by
+    rcases hr with rfl | hr
+    · rfl
+    · simp [hr]
+  rw [parseAfter]
+  simp only [hds, htw, List.head?_cons, show (some '&' == some '\t') = false by decide, Bool.false_eq_true, if_false,
+    List.isEmpty_cons, show (some '&' == some '#') = false by decide, Bool.false_and, Bool.or_self, hsplit.1, hsplit.2, hemp,
+    hrs, hkey, hdash]
+
+/-- The text after an anchor is not a mapping key and not a sequence entry. -/
+theorem value_first_facts (n : PNode) (ctx : Ctx) (hn : n.bl2 ctx = true) (hanc : n.anchorable false = true)
+    (e col : Nat) (m : Meta) (ht : trailOk2 m n = true) :
+    splitKey (dropSpaces (n.valueR ctx e col m).1) = .ok none ∧ isDash (dropSpaces (n.valueR ctx e col m).1) = false := by
+  have hT := trailOk_trailText m.trail
+  have hempty : ∀ T, TrailOk T → splitKey (dropSpaces T) = .ok none ∧ isDash (dropSpaces T) = false := by
+    intro T hT
+    rcases hT with rfl | ⟨c, rfl⟩
+    · exact ⟨by simp [dropSpaces, splitKey, plainLen], by simp [dropSpaces, isDash]⟩
+    · have : dropSpaces (' ' :: '#' :: c) = '#' :: c := by simp [dropSpaces, List.dropWhile_cons]
+      rw [this]; exact ⟨by simp [splitKey], by simp [isDash]⟩
+  by_cases hi : n.isInline2 = true
+  · rw [valueR_inline n ctx hn hi e col m]
+    by_cases hne : n.flow = []
+    · simp only [hne, if_true, List.nil_append]; exact hempty _ hT
+    · simp only [hne, if_false]
+      obtain ⟨⟨c, r, hfl, hsp, _⟩, hdash, hkey, _⟩ := inline3_value n ctx hn hi hne
+      have hds : dropSpaces (spaces (m.gap + 1) ++ n.flow ++ trailText m.trail) = n.flow ++ trailText m.trail := by
+        rw [hfl]
+        have := dropSpaces_spaces (m.gap + 1) c (r ++ trailText m.trail) hsp
+        simpa [List.append_assoc] using this
+      rw [hds]; exact ⟨hkey _ hT, hdash _ hT⟩
+  · cases n with
+    | str s st =>
+      cases st with
+      | literal ch ind ex =>
+        have hds : dropSpaces ((PNode.str s (.literal ch ind ex)).valueR ctx e col m).1
+            = '|' :: (((if ex then natDigits 10 ind else []) ++ chompChar ch) ++ trailText m.trail) := by
+          have := dropSpaces_spaces (m.gap + 1) '|' (((if ex then natDigits 10 ind else []) ++ chompChar ch) ++ trailText m.trail)
+            (by decide)
+          simpa [PNode.valueR, List.append_assoc] using this
+        rw [hds]; exact ⟨by simp [splitKey], by simp [isDash]⟩
+      | folded ch ind ex fo =>
+        have hds : dropSpaces ((PNode.str s (.folded ch ind ex fo)).valueR ctx e col m).1
+            = '>' :: (((if ex then natDigits 10 ind else []) ++ chompChar ch) ++ trailText m.trail) := by
+          have := dropSpaces_spaces (m.gap + 1) '>' (((if ex then natDigits 10 ind else []) ++ chompChar ch) ++ trailText m.trail)
+            (by decide)
+          simpa [PNode.valueR, List.append_assoc] using this
+        rw [hds]; exact ⟨by simp [splitKey], by simp [isDash]⟩
+      | _ => simp [PNode.isInline2] at hi
+    | seq fl st c items =>
+      cases fl with
+      | true => simp [PNode.isInline2] at hi
+      | false =>
+        have hc : c = false := by simpa [PNode.anchorable] using hanc
+        subst hc
+        simp only [PNode.valueR, Bool.false_eq_true, if_false]; exact hempty _ hT
+    | map fl st c es =>
+      cases fl with
+      | true => simp [PNode.isInline2] at hi
+      | false =>
+        have hc : c = false := by simpa [PNode.anchorable] using hanc
+        subst hc
+        simp only [PNode.valueR, Bool.false_eq_true, if_false]; exact hempty _ hT
+    | anchored a n' => simp [PNode.anchorable] at hanc
+    | _ => simp [PNode.isInline2] at hi
+
+theorem noncompact_of_ctx (x : PNode) (ctx : Ctx) (h : x.bl2 ctx = true) (hc : ctx ≠ .seq) : x.isCompact = false := by
+  cases x with
+  | seq fl st c items =>
+    cases fl with
+    | true => rfl
+    | false =>
+      cases c with
+      | false => rfl
+      | true => cases ctx <;> simp [PNode.bl2] at h hc
+  | map fl st c es =>
+    cases fl with
+    | true => rfl
+    | false =>
+      cases c with
+      | false => rfl
+      | true => cases ctx <;> simp [PNode.bl2] at h hc
+  | _ => rfl
+
 mutual
-/-- A layer-2/3 value after its indicator. -/
+/-- A value after its indicator (`cOk`: a compact collection may start on this line). -/
 theorem afterL : (x : PNode) → ∀ (ctx : Ctx), x.bl2 ctx = true → ∀ (e col : Nat) (m : Meta), trailOk2 m x = true →
-    (e < col ∨ ctx = .root) → (ctx = .root → e = 0) → ∀ (f : Nat) (rest : List Line), x.bneed ≤ f → Bound ctx e rest →
+    (e < col ∨ ctx = .root) → (ctx = .root → e = 0) → ∀ (cOk : Bool), (x.isCompact = true → cOk = true) →
+    ∀ (f : Nat) (rest : List Line), x.bneed ≤ f → Bound ctx e rest →
     Tail e x.endsKeep rest →
-    Parsed (parseAfter f (x.valueR ctx e col m).1 col (pnOf ctx e) (ctx == .seq) (ctx == .map) ((x.valueR ctx e col m).2 ++ rest))
+    Parsed (parseAfter f (x.valueR ctx e col m).1 col (pnOf ctx e) cOk (ctx == .map) ((x.valueR ctx e col m).2 ++ rest))
       x.node rest
-  | .null v, ctx, h, e, col, m, ht, _, _, f, rest, hf, hb, _ =>
-    afterL_inline _ ctx h rfl e col m ht f rest (by simpa [PNode.bneed] using hf) hb
-  | .bool b v, ctx, h, e, col, m, ht, _, _, f, rest, hf, hb, _ =>
-    afterL_inline _ ctx h rfl e col m ht f rest (by simpa [PNode.bneed] using hf) hb
-  | .int i v, ctx, h, e, col, m, ht, _, _, f, rest, hf, hb, _ =>
-    afterL_inline _ ctx h rfl e col m ht f rest (by simpa [PNode.bneed] using hf) hb
-  | .str s st, ctx, h, e, col, m, ht, _, hroot, f, rest, hf, hb, hT => by
+  | .null v, ctx, h, e, col, m, ht, _, _, cOk, _, f, rest, hf, hb, _ =>
+    afterL_inline _ ctx h rfl e col m ht cOk f rest (by simpa [PNode.bneed] using hf) hb
+  | .bool b v, ctx, h, e, col, m, ht, _, _, cOk, _, f, rest, hf, hb, _ =>
+    afterL_inline _ ctx h rfl e col m ht cOk f rest (by simpa [PNode.bneed] using hf) hb
+  | .int i v, ctx, h, e, col, m, ht, _, _, cOk, _, f, rest, hf, hb, _ =>
+    afterL_inline _ ctx h rfl e col m ht cOk f rest (by simpa [PNode.bneed] using hf) hb
+  | .str s st, ctx, h, e, col, m, ht, _, hroot, cOk, hck, f, rest, hf, hb, hT => by
+    clear hck
     cases st
     case literal ch ind ex =>
       simp only [PNode.bl2] at h
@@ -2506,7 +2895,7 @@ theorem afterL : (x : PNode) → ∀ (ctx : Ctx), x.bl2 ctx = true → ∀ (e co
       have hpn : pnOf ctx e = if (ctx == Ctx.root) = true then 0 else e + 1 := by cases ctx <;> rfl
       have hk : (PNode.str s (.literal ch ind ex)).endsKeep = (ch == .keep) := by cases ch <;> rfl
       rw [hk] at hT
-      have := after_literal f' (m.gap + 1) col (pnOf ctx e) e (ctx == .seq) (ctx == .map) (ctx == .root) s ch ind ex hpn
+      have := after_literal f' (m.gap + 1) col (pnOf ctx e) e cOk (ctx == .map) (ctx == .root) s ch ind ex hpn
         (by intro h'; exact hroot (by simpa using h')) h rest hT _ (trailOk_trailText m.trail)
       simp only [PNode.valueR, PNode.node]
       have e1 : (if ctx = Ctx.root then 0 else e + 1) = pnOf ctx e := rfl
@@ -2518,20 +2907,41 @@ theorem afterL : (x : PNode) → ∀ (ctx : Ctx), x.bl2 ctx = true → ∀ (e co
       have hpn : pnOf ctx e = if (ctx == Ctx.root) = true then 0 else e + 1 := by cases ctx <;> rfl
       have hk : (PNode.str s (.folded ch ind ex fo)).endsKeep = (ch == .keep) := by cases ch <;> rfl
       rw [hk] at hT
-      have := after_folded f' (m.gap + 1) col (pnOf ctx e) e (ctx == .seq) (ctx == .map) (ctx == .root) s ch ind ex fo hpn
+      have := after_folded f' (m.gap + 1) col (pnOf ctx e) e cOk (ctx == .map) (ctx == .root) s ch ind ex fo hpn
         (by intro h'; exact hroot (by simpa using h')) h rest hT _ (trailOk_trailText m.trail)
       simp only [PNode.valueR, PNode.node]
       have e1 : (if ctx = Ctx.root then 0 else e + 1) = pnOf ctx e := rfl
       rw [e1]
       exact ⟨rest.dropWhile blankL, this, skipFill_dropBlank rest⟩
-    all_goals exact afterL_inline _ ctx h rfl e col m ht f rest (by simpa [PNode.bneed] using hf) hb
-  | .anchored a n, ctx, h, _, _, _, _, _, _, _, _, _, _, _ => by simp [PNode.bl2, PNode.sc2] at h
-  | .alias a t, ctx, h, _, _, _, _, _, _, _, _, _, _, _ => by simp [PNode.bl2, PNode.sc2] at h
-  | .seq true st c items, ctx, h, e, col, m, ht, _, _, f, rest, hf, hb, _ =>
-    afterL_inline _ ctx h rfl e col m ht f rest (by simpa [PNode.bneed] using hf) hb
-  | .map true st c es, ctx, h, e, col, m, ht, _, _, f, rest, hf, hb, _ =>
-    afterL_inline _ ctx h rfl e col m ht f rest (by simpa [PNode.bneed] using hf) hb
-  | .seq false st c items, ctx, h, e, col, m, ht, hcol, hroot, f, rest, hf, hb, hT => by
+    all_goals exact afterL_inline _ ctx h rfl e col m ht cOk f rest (by simpa [PNode.bneed] using hf) hb
+  | .anchored a n, ctx, h, e, col, m, ht, hcol, hroot, cOk, _, f, rest, hf, hb, hT => by
+    simp only [PNode.bl2, Bool.and_eq_true] at h
+    obtain ⟨⟨ha, hanc⟩, hn⟩ := h
+    have htn := trailOk2_inner m a n ht hanc
+    obtain ⟨f', rfl⟩ : ∃ f', f = f' + 1 := ⟨f - 1, by simp [PNode.bneed] at hf; omega⟩
+    have hf' : n.bneed ≤ f' := by simp [PNode.bneed] at hf; omega
+    obtain ⟨hs, _, _⟩ := canon_value n ctx hn e (col + m.gap + 1 + a.length + 1) { m with gap := 0 } htn
+    obtain ⟨hkey, hdash⟩ := value_first_facts n ctx hn hanc e (col + m.gap + 1 + a.length + 1) { m with gap := 0 } htn
+    have ih := afterL n ctx hn e (col + m.gap + 1 + a.length + 1) { m with gap := 0 } htn
+      (by rcases hcol with h' | h'; exact Or.inl (by omega); exact Or.inr h') hroot false
+      (by intro hc; rw [anchorable_noncompact n false hanc] at hc; cases hc) f' rest hf' hb
+      (by simpa [PNode.endsKeep] using hT)
+    obtain ⟨rest', hp, hsk⟩ := ih
+    simp only [PNode.valueR, PNode.node]
+    have e1 : spaces (m.gap + 1) ++ '&' :: a ++ (n.valueR ctx e (col + m.gap + 1 + a.length + 1) { m with gap := 0 }).1
+        = spaces (m.gap + 1) ++ '&' :: (a ++ (n.valueR ctx e (col + m.gap + 1 + a.length + 1) { m with gap := 0 }).1) := by
+      simp [List.append_assoc]
+    rw [e1, parseAfter_anchor f' (m.gap + 1) col (pnOf ctx e) cOk (ctx == .map) a _ _ ha hs hkey hdash]
+    have e2 : col + (m.gap + 1) + 1 + a.length = col + m.gap + 1 + a.length + 1 := by omega
+    rw [e2, hp]
+    exact ⟨rest', rfl, hsk⟩
+  | .alias a t, ctx, h, e, col, m, ht, _, _, cOk, _, f, rest, hf, hb, _ =>
+    afterL_inline _ ctx h rfl e col m ht cOk f rest (by simpa [PNode.bneed] using hf) hb
+  | .seq true st c items, ctx, h, e, col, m, ht, _, _, cOk, _, f, rest, hf, hb, _ =>
+    afterL_inline _ ctx h rfl e col m ht cOk f rest (by simpa [PNode.bneed] using hf) hb
+  | .map true st c es, ctx, h, e, col, m, ht, _, _, cOk, _, f, rest, hf, hb, _ =>
+    afterL_inline _ ctx h rfl e col m ht cOk f rest (by simpa [PNode.bneed] using hf) hb
+  | .seq false st c items, ctx, h, e, col, m, ht, hcol, hroot, cOk, hck, f, rest, hf, hb, hT => by
     simp only [PNode.bl2, Bool.and_eq_true, Bool.not_eq_true'] at h
     obtain ⟨⟨hnil, hi⟩, hc⟩ := h
     have hT : Tail e items.endsKeep rest := by simpa [PNode.endsKeep] using hT
@@ -2590,6 +3000,8 @@ theorem afterL : (x : PNode) → ∀ (ctx : Ctx), x.bl2 ctx = true → ∀ (e co
       | true =>
         have hctx : ctx = .seq := by simpa using hc
         subst hctx
+        have hcOk : cOk = true := hck rfl
+        subst hcOk
         have hcol' : e < col := by
           rcases hcol with h' | h'
           · exact h'
@@ -2616,7 +3028,7 @@ theorem afterL : (x : PNode) → ∀ (ctx : Ctx), x.bl2 ctx = true → ∀ (e co
         simp only [PItems.linesR, hfl0, fillLines, List.map_nil, List.nil_append, List.cons_append, List.append_assoc,
           List.reverse_nil] at this
         exact this
-  | .map false st c es, ctx, h, e, col, m, ht, hcol, hroot, f, rest, hf, hb, hT => by
+  | .map false st c es, ctx, h, e, col, m, ht, hcol, hroot, cOk, hck, f, rest, hf, hb, hT => by
     simp only [PNode.bl2, Bool.and_eq_true, Bool.not_eq_true'] at h
     obtain ⟨⟨hnil, hi⟩, hc⟩ := h
     have hT : Tail e es.endsKeep rest := by simpa [PNode.endsKeep] using hT
@@ -2667,6 +3079,8 @@ theorem afterL : (x : PNode) → ∀ (ctx : Ctx), x.bl2 ctx = true → ∀ (e co
       | true =>
         have hctx : ctx = .seq := by simpa using hc
         subst hctx
+        have hcOk : cOk = true := hck rfl
+        subst hcOk
         have hcol' : e < col := by
           rcases hcol with h' | h'
           · exact h'
@@ -2728,7 +3142,8 @@ theorem seqL : (items : PItems) → items.bl2 = true → ∀ (n f : Nat) (rest :
     rw [parseSeq_congr (f' + 1) n _ _ acc (skipFill_fillLines n m.fill _)]
     rw [parseSeq]
     simp only [skipFill, hfil, Bool.false_eq_true, if_false, Nat.lt_irrefl, hd, Bool.not_true, List.drop_one, List.tail_cons]
-    obtain ⟨rest', hpa, hsk⟩ := afterL x .seq hx n (n + 1) m htr (Or.inl (Nat.lt_succ_self n)) (by intro h0; cases h0) f'
+    obtain ⟨rest', hpa, hsk⟩ := afterL x .seq hx n (n + 1) m htr (Or.inl (Nat.lt_succ_self n)) (by intro h0; cases h0)
+      true (fun _ => rfl) f'
       (r.linesR n ++ rest) hfx (bound_after_items r hr n rest hb) hT1
     simp only [pnOf, show (Ctx.seq = Ctx.root) = False by simp, if_false, show (Ctx.seq == Ctx.seq) = true by rfl,
       show (Ctx.seq == Ctx.map) = false by rfl] at hpa
@@ -2769,7 +3184,8 @@ theorem mapL : (es : PEntries) → es.bl2 = true → ∀ (n f : Nat) (rest : Lis
         - (x.valueR .map n (n + (keyText k ks).length + 1) m).1.length) = n + (keyText k ks).length + 1 := by
       simp only [List.length_append, List.length_cons]; omega
     rw [hcol]
-    obtain ⟨rest', hpa, hsk⟩ := afterL x .map hx n (n + (keyText k ks).length + 1) m htr (Or.inl (by omega)) (by intro h0; cases h0) f'
+    obtain ⟨rest', hpa, hsk⟩ := afterL x .map hx n (n + (keyText k ks).length + 1) m htr (Or.inl (by omega)) (by intro h0; cases h0)
+      false (by intro hc; rw [noncompact_of_ctx x .map hx (by decide)] at hc; cases hc) f'
       (r.linesR n ++ rest) hfx (bound_after_entries r hr n rest hb) hT1
     simp only [pnOf, show (Ctx.map = Ctx.root) = False by simp, if_false, show (Ctx.map == Ctx.seq) = false by rfl,
       show (Ctx.map == Ctx.map) = true by rfl] at hpa
@@ -2784,36 +3200,74 @@ end
 /-! ## Resolution, fuel and document markers for layer-2 block nodes -/
 
 mutual
-theorem resolveB : (x : PNode) → ∀ ctx, x.bl2 ctx = true → ∀ env, x.node.resolve env = .ok (x.tree, env)
-  | .null v, ctx, h, env => (scalarFacts false (.null v) (by simp [PNode.sc2]) (by intros; simp) (by intros; simp)).res env
-  | .bool b v, ctx, h, env => (scalarFacts false (.bool b v) (by simp [PNode.sc2]) (by intros; simp) (by intros; simp)).res env
-  | .int i v, ctx, h, env => (scalarFacts false (.int i v) (by simp [PNode.sc2]) (by intros; simp) (by intros; simp)).res env
-  | .str s st, ctx, h, env => by
+/-- Resolution of block nodes follows the specification's anchor scoping. -/
+theorem resolveB : (x : PNode) → ∀ ctx, x.bl2 ctx = true → ∀ env env', x.scope env = some env' →
+    x.node.resolve env = .ok (x.tree, env')
+  | .null v, ctx, h, env, env', hs => by
+    have : env' = env := by simpa [PNode.scope] using hs.symm
+    subst this
+    exact (scalarFacts false (.null v) (by simp [PNode.sc2]) (by intros; simp) (by intros; simp)).res env'
+  | .bool b v, ctx, h, env, env', hs => by
+    have : env' = env := by simpa [PNode.scope] using hs.symm
+    subst this
+    exact (scalarFacts false (.bool b v) (by simp [PNode.sc2]) (by intros; simp) (by intros; simp)).res env'
+  | .int i v, ctx, h, env, env', hs => by
+    have : env' = env := by simpa [PNode.scope] using hs.symm
+    subst this
+    exact (scalarFacts false (.int i v) (by simp [PNode.sc2]) (by intros; simp) (by intros; simp)).res env'
+  | .str s st, ctx, h, env, env', hs => by
+    have : env' = env := by simpa [PNode.scope] using hs.symm
+    subst this
     cases st
     case literal ch ind ex => simp [PNode.node, Node.resolve, resolveScalar, PNode.tree]; rfl
     case folded ch ind ex fo => simp [PNode.node, Node.resolve, resolveScalar, PNode.tree]; rfl
-    all_goals exact (scalarFacts false _ (by simpa [PNode.bl2] using h) (by intros; simp) (by intros; simp)).res env
-  | .seq true st c items, ctx, h, env => resolveNode2 _ (by simpa [PNode.bl2] using h) env
-  | .map true st c es, ctx, h, env => resolveNode2 _ (by simpa [PNode.bl2] using h) env
-  | .seq false st c items, ctx, h, env => by
+    all_goals exact (scalarFacts false _ (by simpa [PNode.bl2] using h) (by intros; simp) (by intros; simp)).res env'
+  | .seq true st c items, ctx, h, env, env', hs => resolveNode2 _ (by simpa [PNode.bl2] using h) env env' hs
+  | .map true st c es, ctx, h, env, env', hs => resolveNode2 _ (by simpa [PNode.bl2] using h) env env' hs
+  | .seq false st c items, ctx, h, env, env', hs => by
     simp only [PNode.bl2, Bool.and_eq_true] at h
-    simp [PNode.node, Node.resolve, resolveBItems items h.1.2 env, PNode.tree]; rfl
-  | .map false st c es, ctx, h, env => by
+    simp only [PNode.scope] at hs
+    simp [PNode.node, Node.resolve, resolveBItems items h.1.2 env env' hs, PNode.tree]; rfl
+  | .map false st c es, ctx, h, env, env', hs => by
     simp only [PNode.bl2, Bool.and_eq_true] at h
-    simp [PNode.node, Node.resolve, resolveBEntries es h.1.2 env, PNode.tree]; rfl
-  | .anchored a n, ctx, h, _ => by simp [PNode.bl2, PNode.sc2] at h
-  | .alias a t, ctx, h, _ => by simp [PNode.bl2, PNode.sc2] at h
-theorem resolveBItems : (items : PItems) → items.bl2 = true → ∀ env, resolveList env items.nodes = .ok (items.trees, env)
-  | .nil, _, env => by simp [PItems.nodes, resolveList, PItems.trees]
-  | .cons m x r, h, env => by
+    simp only [PNode.scope] at hs
+    simp [PNode.node, Node.resolve, resolveBEntries es h.1.2 env env' hs, PNode.tree]; rfl
+  | .anchored a n, ctx, h, env, env', hs => by
+    simp only [PNode.bl2, Bool.and_eq_true] at h
+    obtain ⟨e, he, rfl⟩ := scope_anchored a n env env' hs
+    simp only [PNode.node, Node.resolve, resolveB n ctx h.2 env e he, PNode.tree]
+  | .alias a t, ctx, h, env, env', hs => by
+    obtain ⟨rfl, hl⟩ := scope_alias a t env env' hs
+    simp only [PNode.node, Node.resolve, hl, PNode.tree]
+theorem resolveBItems : (items : PItems) → items.bl2 = true → ∀ env env', items.scope env = some env' →
+    resolveList env items.nodes = .ok (items.trees, env')
+  | .nil, _, env, env', hs => by
+    have : env' = env := by simpa [PItems.scope] using hs.symm
+    subst this; simp [PItems.nodes, resolveList, PItems.trees]
+  | .cons m x r, h, env, env', hs => by
     simp only [PItems.bl2, Bool.and_eq_true] at h
-    simp [PItems.nodes, resolveList, resolveB x .seq h.1.2 env, resolveBItems r h.2 env, PItems.trees]; rfl
-theorem resolveBEntries : (es : PEntries) → es.bl2 = true → ∀ env, resolveKVs env es.nodes = .ok (es.trees, env)
-  | .nil, _, env => by simp [PEntries.nodes, resolveKVs, PEntries.trees]
-  | .cons m k ks x r, h, env => by
+    simp only [PItems.scope] at hs
+    cases hxs : x.scope env with
+    | none => rw [hxs] at hs; cases hs
+    | some e =>
+      rw [hxs] at hs
+      simp only [Option.bind_some] at hs
+      simp [PItems.nodes, resolveList, resolveB x .seq h.1.2 env e hxs, resolveBItems r h.2 e env' hs, PItems.trees]; rfl
+theorem resolveBEntries : (es : PEntries) → es.bl2 = true → ∀ env env', es.scope env = some env' →
+    resolveKVs env es.nodes = .ok (es.trees, env')
+  | .nil, _, env, env', hs => by
+    have : env' = env := by simpa [PEntries.scope] using hs.symm
+    subst this; simp [PEntries.nodes, resolveKVs, PEntries.trees]
+  | .cons m k ks x r, h, env, env', hs => by
     simp only [PEntries.bl2, Bool.and_eq_true] at h
-    simp [PEntries.nodes, resolveKVs, (keyFacts false k ks h.1.1.2).2.2, resolveB x .map h.1.2 env, resolveBEntries r h.2 env,
-      PEntries.trees]; rfl
+    simp only [PEntries.scope] at hs
+    cases hxs : x.scope env with
+    | none => rw [hxs] at hs; cases hs
+    | some e =>
+      rw [hxs] at hs
+      simp only [Option.bind_some] at hs
+      simp [PEntries.nodes, resolveKVs, (keyFacts false k ks h.1.1.2).2.2, resolveB x .map h.1.2 env e hxs,
+        resolveBEntries r h.2 e env' hs, PEntries.trees]; rfl
 end
 
 /-- Weight of lines as counted by the loader's fuel. -/
@@ -2837,7 +3291,11 @@ theorem bneed_value : (x : PNode) → ∀ ctx, x.bl2 ctx = true → ∀ (e col :
   | .bool _ _, _, _, _, _, _ => by simp [PNode.bneed]
   | .int _ _, _, _, _, _, _ => by simp [PNode.bneed]
   | .str _ _, _, _, _, _, _ => by simp [PNode.bneed]
-  | .anchored _ _, _, _, _, _, _ => by simp [PNode.bneed]
+  | .anchored a n, ctx, h, e, col, m => by
+    simp only [PNode.bl2, Bool.and_eq_true] at h
+    have := bneed_value n ctx h.2 e (col + m.gap + 1 + a.length + 1) { m with gap := 0 }
+    simp only [PNode.bneed, PNode.valueR, List.length_append, List.length_cons]
+    omega
   | .alias _ _, _, _, _, _, _ => by simp [PNode.bneed]
   | .seq true _ _ _, _, _, _, _, _ => by simp [PNode.bneed]
   | .map true _ _ _, _, _, _, _, _ => by simp [PNode.bneed]
@@ -3025,8 +3483,11 @@ theorem nm_value : (x : PNode) → ∀ ctx, x.bl2 ctx = true → ∀ (e col : Na
       exact bsLines_notMark _ (by cases ctx <;> simp at hind ⊢ <;> omega) _
         (fun l hl => bodyOk_of_headOk l (folded_lines_ok fo ch s hch hlines hsp hhead hf l hl).1) l hl
     all_goals (rw [valueR_inline _ ctx h rfl e col m]; simp)
-  | .anchored a n, ctx, h, _, _, _, _ => by simp [PNode.bl2, PNode.sc2] at h
-  | .alias a t, ctx, h, _, _, _, _ => by simp [PNode.bl2, PNode.sc2] at h
+  | .anchored a n, ctx, h, e, col, m, ht => by
+    simp only [PNode.bl2, Bool.and_eq_true] at h
+    simp only [PNode.valueR]
+    exact nm_value n ctx h.2 e (col + m.gap + 1 + a.length + 1) { m with gap := 0 } (trailOk2_inner m a n ht h.1.2)
+  | .alias a t, ctx, h, e, col, m, ht => by rw [valueR_inline _ ctx h rfl e col m]; simp
 theorem nm_items : (items : PItems) → items.bl2 = true → ∀ n, ∀ l ∈ items.linesR n, l.notMark
   | .nil, _, _ => by simp [PItems.linesR]
   | .cons m x r, h, n => by
